@@ -11,12 +11,16 @@ FUNCTIONS_ENCODED = ["Node.route_answer", "Node.send_message", "Node.remove_peer
                      "Node._receive_app_request", "Application.send_answer / generate_answer", "Node.receive_cer (reconnect)"]
 ASSUMPTIONS = ["hop-by-hop ids are drawn from a 5-element pool (the node only compares them and uses them as keys: data-independence)",
                "requests arrive in a fixed order; answer order, duplicate submission, fault kind and fault point are solver-chosen"]
-BOUNDS = {"quick": "2 peers, 3 concurrent requests (2 on one connection), every assignment of pool ids (equal ids on different connections included unless the known finding is active), every order of answer submission, a duplicate submission, one fault in {none, requester gone, requester DPR, requester reconnects (abruptly / after DPR / after a watchdog timeout), other peer gone} at every point between arrival and submission",
-          "thorough": "3 peers, 4 requests"}
+BOUNDS = {"quick": "2 peers, 3 concurrent requests (2 on one connection), every assignment of ids from a 5-element pool (equal ids on different connections included unless the known finding is active), every order of answer submission, a duplicate submission, one fault in {none, requester gone, requester DPR, requester DPR with our DWR outstanding and the DWA arriving late, requester reconnects (abruptly / after DPR / after a watchdog timeout), other peer gone} at every point between arrival and submission",
+          "thorough": "same (the scenario runs natively once the solver has fixed the choice indices, so the former thorough bound - ids from a 5-element pool, all 6 answer orders - is the quick bound now)"}
 OUTSIDE = ["4 concurrent requests per peer", "two faults"]
 
 PERMS = [(0, 1, 2), (0, 2, 1), (1, 0, 2), (1, 2, 0), (2, 0, 1), (2, 1, 0)]
-FAULTS = ["none", "gone_1", "dpr_1", "reconnect_1", "gone_2", "dpr_reconnect_1", "dwa_timeout_reconnect_1", "reconnect_newreq_1"]
+FAULTS = ["none", "gone_1", "dpr_1", "reconnect_1", "gone_2", "dpr_reconnect_1", "dwa_timeout_reconnect_1", "reconnect_newreq_1", "dwr_dpr_dwa_1"]
+
+
+class _Early(Exception):
+    pass
 
 
 def scenario(i1a: int, i1b: int, i2a: int, perm: int, fault: int, point: int, dup: int) -> bool:
@@ -33,99 +37,117 @@ def scenario(i1a: int, i1b: int, i2a: int, perm: int, fault: int, point: int, du
     pt = hx.concretize_range(point, 0, 4)
     dp = hx.concretize_range(dup, 0, 3)
     inputs = (i1a, i1b, i2a, perm, fault, point, dup)
+    # every input is a choice index, concretised above: the scenario itself runs natively
+    early = None
+    log, exp = [], []
     try:
-        b = B.Bench(n_peers=2, apps=((4, "auth"),))
-        n, app = b.node, b.apps[0]
-        outbound = bool(P.get("outbound"))
-        cased = B.PEER_HOSTS[0].replace("peer1", "Peer1")          # the peer spells its identity with another letter case
+      with hx.untraced():
+              b = B.Bench(n_peers=2, apps=((4, "auth"),))
+              n, app = b.node, b.apps[0]
+              outbound = bool(P.get("outbound"))
+              cased = B.PEER_HOSTS[0].replace("peer1", "Peer1")          # the peer spells its identity with another letter case
 
-        def connect1():
-            if not outbound:
-                return b.make_ready(b.peers[0], "10.0.1.1")[0]
-            cx = b.dial(b.peers[0], "ok")
-            drain(cx)
-            b.inject(cx, B.cea(cased))
-            drain(cx)
-            return cx
-        c1 = connect1()
-        if P.get("second_conn"):
-            # the second connection is a second established connection of the SAME peer
-            c2, s2 = b.make_ready(b.peers[0], "10.0.1.1")
-        else:
-            c2, s2 = b.make_ready(b.peers[1], "10.0.1.2")
-        conns = [c1, c2]
-        # requests: 0 -> peer1/h1a, 1 -> peer2/h2a, 2 -> peer1/h1b
-        plan = [(0, ids[0]), (1, ids[2]), (0, ids[1])]
-        for k, (ci, hbh) in enumerate(plan):
-            b.inject(conns[ci], B.ccr(B.PEER_HOSTS[0 if P.get("second_conn") else ci], hbh, 7000 + k, session="s;%d" % k))
-        for c in conns:
-            drain(c)
-        reqs = list(app.requests)
-        if len(reqs) != 3:
-            return hx.fail(inputs, "requests not delivered")
-        arrived_on = [conns[ci] for (ci, _h) in plan]
-        answered = set()
-        log, exp = [], []
+              def connect1():
+                  if not outbound:
+                      return b.make_ready(b.peers[0], "10.0.1.1")[0]
+                  cx = b.dial(b.peers[0], "ok")
+                  drain(cx)
+                  b.inject(cx, B.cea(cased))
+                  drain(cx)
+                  return cx
+              c1 = connect1()
+              if P.get("second_conn"):
+                  # the second connection is a second established connection of the SAME peer
+                  c2, s2 = b.make_ready(b.peers[0], "10.0.1.1")
+              else:
+                  c2, s2 = b.make_ready(b.peers[1], "10.0.1.2")
+              conns = [c1, c2]
+              # requests: 0 -> peer1/h1a, 1 -> peer2/h2a, 2 -> peer1/h1b
+              plan = [(0, ids[0]), (1, ids[2]), (0, ids[1])]
+              for k, (ci, hbh) in enumerate(plan):
+                  b.inject(conns[ci], B.ccr(B.PEER_HOSTS[0 if P.get("second_conn") else ci], hbh, 7000 + k, session="s;%d" % k))
+              for c in conns:
+                  drain(c)
+              reqs = list(app.requests)
+              if len(reqs) != 3:
+                  early = "requests not delivered"
+                  raise _Early()
+              arrived_on = [conns[ci] for (ci, _h) in plan]
+              answered = set()
+              log, exp = [], []
+              dpr_seen = set()             # connections whose peer has asked to disconnect: never usable again, whatever their state field says
 
-        def strike():
-            if f == "gone_1":
-                n.close_connection_socket(c1, B.DISCONNECT_REASON_GONE_AWAY)
-            elif f == "gone_2":
-                n.close_connection_socket(c2, B.DISCONNECT_REASON_GONE_AWAY)
-            elif f == "dpr_1":
-                b.inject(c1, B.dpr(B.PEER_HOSTS[0], 4242, 4242))
-                drain(c1)
-            elif f == "reconnect_1":
-                n.close_connection_socket(c1, B.DISCONNECT_REASON_GONE_AWAY)
-                conns.append(connect1())
-            elif f == "reconnect_newreq_1":
-                # the requester comes back and sends a NEW request that reuses the hop-by-hop id of its first one
-                n.close_connection_socket(c1, B.DISCONNECT_REASON_GONE_AWAY)
-                c1n = connect1()
-                conns.append(c1n)
-                b.inject(c1n, B.ccr(B.PEER_HOSTS[0], ids[0], 7003, session="s;3"))
-                drain(c1n)
-                reqs.append(app.requests[-1])
-                arrived_on.append(c1n)
-                plan.append((len(conns) - 1, ids[0]))
-                seq.append(3)
-            elif f == "dpr_reconnect_1":
-                # the requester disconnects cleanly (DPR/DPA, then closes) and comes back
-                b.inject(c1, B.dpr(B.PEER_HOSTS[0], 4242, 4242))
-                drain(c1)
-                n.close_connection_socket(c1, B.DISCONNECT_REASON_GONE_AWAY)
-                c1n, _s = b.make_ready(b.peers[0], "10.0.1.1")
-                conns.append(c1n)
-            elif f == "dwa_timeout_reconnect_1":
-                n.send_dwr(c1)
-                drain(c1)
-                n.close_connection_socket(c1, B.DISCONNECT_REASON_DWA_TIMEOUT)
-                c1n, _s = b.make_ready(b.peers[0], "10.0.1.1")
-                conns.append(c1n)
-        seq = list(order)
-        if dp:
-            seq.insert(dp, order[0])              # the first answer is submitted a second time, right away or one later
-        step = -1
-        while step + 1 < len(seq):
-            step += 1
-            k = seq[step]
-            if step == pt and f != "none":
-                strike()
-            ans = app.generate_answer(reqs[k], result_code=2001)
-            try:
-                app.send_answer(ans)
-                res = "sent"
-            except B.NotRoutable:
-                res = "NotRoutable"
-            queued = [[(m.header.hop_by_hop_identifier, m.header.end_to_end_identifier) for m in drain(c) if not m.header.is_request] for c in conns]
-            log.append((k, res, queued))
-            home = arrived_on[k]
-            alive = home.ident in n.connections and n.connections[home.ident] is home and home.state in B.PEER_READY_STATES
-            if alive and k not in answered:
-                answered.add(k)
-                exp.append((k, "sent", [[(plan[k][1], 7000 + k)] if c is home else [] for c in conns]))
-            else:
-                exp.append((k, "NotRoutable", [[] for _ in conns]))
+              def strike():
+                  if f == "gone_1":
+                      n.close_connection_socket(c1, B.DISCONNECT_REASON_GONE_AWAY)
+                  elif f == "gone_2":
+                      n.close_connection_socket(c2, B.DISCONNECT_REASON_GONE_AWAY)
+                  elif f == "dpr_1":
+                      b.inject(c1, B.dpr(B.PEER_HOSTS[0], 4242, 4242))
+                      drain(c1)
+                      dpr_seen.add(id(c1))
+                  elif f == "reconnect_1":
+                      n.close_connection_socket(c1, B.DISCONNECT_REASON_GONE_AWAY)
+                      conns.append(connect1())
+                  elif f == "reconnect_newreq_1":
+                      # the requester comes back and sends a NEW request that reuses the hop-by-hop id of its first one
+                      n.close_connection_socket(c1, B.DISCONNECT_REASON_GONE_AWAY)
+                      c1n = connect1()
+                      conns.append(c1n)
+                      b.inject(c1n, B.ccr(B.PEER_HOSTS[0], ids[0], 7003, session="s;3"))
+                      drain(c1n)
+                      reqs.append(app.requests[-1])
+                      arrived_on.append(c1n)
+                      plan.append((len(conns) - 1, ids[0]))
+                      seq.append(3)
+                  elif f == "dpr_reconnect_1":
+                      # the requester disconnects cleanly (DPR/DPA, then closes) and comes back
+                      b.inject(c1, B.dpr(B.PEER_HOSTS[0], 4242, 4242))
+                      drain(c1)
+                      n.close_connection_socket(c1, B.DISCONNECT_REASON_GONE_AWAY)
+                      c1n, _s = b.make_ready(b.peers[0], "10.0.1.1")
+                      conns.append(c1n)
+                  elif f == "dwr_dpr_dwa_1":
+                      # our watchdog request is outstanding when the requester sends a DPR; the overdue DWA arrives after it
+                      n.send_dwr(c1)
+                      drain(c1)
+                      b.inject(c1, B.dpr(B.PEER_HOSTS[0], 4242, 4242))
+                      drain(c1)
+                      b.inject(c1, B.dwa(B.PEER_HOSTS[0], 4243, 4243))
+                      drain(c1)
+                      dpr_seen.add(id(c1))
+                  elif f == "dwa_timeout_reconnect_1":
+                      n.send_dwr(c1)
+                      drain(c1)
+                      n.close_connection_socket(c1, B.DISCONNECT_REASON_DWA_TIMEOUT)
+                      c1n, _s = b.make_ready(b.peers[0], "10.0.1.1")
+                      conns.append(c1n)
+              seq = list(order)
+              if dp:
+                  seq.insert(dp, order[0])              # the first answer is submitted a second time, right away or one later
+              step = -1
+              while step + 1 < len(seq):
+                  step += 1
+                  k = seq[step]
+                  if step == pt and f != "none":
+                      strike()
+                  ans = app.generate_answer(reqs[k], result_code=2001)
+                  try:
+                      app.send_answer(ans)
+                      res = "sent"
+                  except B.NotRoutable:
+                      res = "NotRoutable"
+                  queued = [[(m.header.hop_by_hop_identifier, m.header.end_to_end_identifier) for m in drain(c) if not m.header.is_request] for c in conns]
+                  log.append((k, res, queued))
+                  home = arrived_on[k]
+                  alive = home.ident in n.connections and n.connections[home.ident] is home and home.state in B.PEER_READY_STATES and id(home) not in dpr_seen
+                  if alive and k not in answered:
+                      answered.add(k)
+                      exp.append((k, "sent", [[(plan[k][1], 7000 + k)] if c is home else [] for c in conns]))
+                  else:
+                      exp.append((k, "NotRoutable", [[] for _ in conns]))
+    except _Early:
+        return hx.fail(inputs, early)
     except Exception as e:
         return hx.fail(inputs, "raised %s: %s" % (type(e).__name__, str(e)[:80]))
     return hx.check(inputs, log, exp, "an answer must be transmitted only on the connection its request arrived on, at most once; otherwise NotRoutable and nothing is sent")
@@ -176,8 +198,8 @@ def specs(tier, seed, carve):
         out.append(dict(id="scenario/outbound_reconnect_1/perm%d" % pi, fn="scenario", params={"fault": FAULTS.index("reconnect_1"), "perm": pi, "pool": 3, "outbound": True}, timeout=900,
                         bound="requester connection dialled by the node, peer identity in another letter case; requester lost and re-dialled at every point; answer order %r" % (PERMS[pi],)))
     for fi, fn_ in enumerate(FAULTS):
-        for pi in ((0, 3, 5) if q else range(6)):
-            out.append(dict(id="scenario/%s/perm%d" % (fn_, pi), fn="scenario", params={"fault": fi, "perm": pi, "pool": 3 if q else 5}, timeout=900 if q else 3000,
+        for pi in range(6):
+            out.append(dict(id="scenario/%s/perm%d" % (fn_, pi), fn="scenario", params={"fault": fi, "perm": pi, "pool": 5}, timeout=900 if q else 3000,
                             bound="fault %s at every point; every id assignment from a %d-element pool%s; answer order %r; duplicate submission at 2 positions" % (
-                                fn_, 3 if q else 5, " (equal ids across peers excluded: known finding)" if "c09_equal_hbh_across_peers" in carve else "", PERMS[pi])))
+                                fn_, 5, " (equal ids across peers excluded: known finding)" if "c09_equal_hbh_across_peers" in carve else "", PERMS[pi])))
     return out
